@@ -1,8 +1,8 @@
 #!/bin/sh
-# usage: try_patch_wt.sh <patch.diff> [props]  — like try_patch.sh, but against the scratch worktree /tmp/mywt and the binary $PDSA
+# usage: try_patch_wt.sh <patch.diff> [props]  — like try_patch.sh, but against the scratch worktree $wt and the binary $PDSA
 # (default /tmp/pdsa_new): usable while a sweep occupies /repo and /verif/bin/pdsa.
-p=$1; props=${2:-all}; bin=${PDSA:-/tmp/pdsa_new}
-git -C /tmp/mywt status --porcelain | grep -q . && { echo "/tmp/mywt not clean"; exit 3; }
-git -C /tmp/mywt apply "$p" || exit 3
-$bin check -prop $props -repo /tmp/mywt -verif /tmp/sweep-verif 2>&1 | grep "^VIOLATION \|^UNDECIDED \|^inline" | cut -c1-260
-git -C /tmp/mywt checkout -- . ; git -C /tmp/mywt clean -fdq
+p=$1; props=${2:-all}; bin=${PDSA:-/tmp/pdsa_new}; wt=${WT:-/tmp/mywt}
+git -C $wt status --porcelain | grep -q . && { echo "$wt not clean"; exit 3; }
+git -C $wt apply "$p" || exit 3
+$bin check -prop $props -repo $wt -verif /tmp/sweep-verif 2>&1 | grep "^VIOLATION \|^UNDECIDED \|^inline" | cut -c1-260
+git -C $wt checkout -- . ; git -C $wt clean -fdq
